@@ -659,6 +659,24 @@ func init() {
 			p.Tail()
 		}})
 	}
+	// Known finding KF-D20 (not repaired: needs an ancestor check under a rename-wide lock and the update of ".." and of
+	// both parents' link counts): a directory renamed into another parent. Reproduced here so that the finding stays
+	// visible; the generators keep directory renames inside one parent.
+	Probes = append(Probes, Probe{"rename-directory-across-parents", []string{"C04", "C02"}, 0, func(p *P) {
+		x := p.Mkdir(p.Root, "x").RFh
+		y := p.Mkdir(p.Root, "y").RFh
+		p.Mkdir(x, "s")
+		p.Rename(x, "s", y, "s") // a legitimate move: ".." of s and the link counts of x and y must follow
+		p.Lookup(y, "s")
+		p.S.WaitIdle()
+		p.T.Emit(TakeSnap(p.S, "run", true))
+		a := p.Mkdir(p.Root, "a").RFh
+		b := p.Mkdir(a, "b").RFh
+		p.Rename(p.Root, "a", b, "c") // into its own subtree: must be refused
+		p.Lookup(p.Root, "a")
+		p.S.WaitIdle()
+		p.T.Emit(TakeSnap(p.S, "run", true))
+	}})
 	// A SYMLINK whose target needs two blocks when one is free: refused without effect, or stored completely.
 	Probes = append(Probes, Probe{"symlink-target-with-one-block-free", []string{"C09", "C02", "C05"}, 1700, func(p *P) {
 		filler := p.Create(p.Root, "filler").RFh
